@@ -143,6 +143,14 @@ func (s *Server) handleConn(c *Conn) error {
 		s.locker.Unlock()
 	}()
 
+	select {
+	case <-s.done:
+		// The server was closed while this connection was being set up,
+		// so Close could not see it in s.conns.
+		return nil
+	default:
+	}
+
 	if tlsConn, ok := c.conn.(*tls.Conn); ok {
 		if d := s.ReadTimeout; d != 0 {
 			c.conn.SetReadDeadline(time.Now().Add(d))
